@@ -849,6 +849,16 @@ func (env *SpecEnv) call(n *ECall) SVal {
 	case "b2s":
 		v := env.eval(n.Args[0])
 		return SVal{V: scalar(App("b2s", SSeq, v.V.T)), G: "Seq"}
+	case "seq_drop":
+		// seq_drop(s, n): s without its first n elements
+		a, b := env.eval(n.Args[0]), env.eval(n.Args[1])
+		return SVal{V: scalar(App("seq_drop", SSeq, a.V.T, b.V.T)), G: "Seq"}
+	case "seq_sub":
+		a, b, c := env.eval(n.Args[0]), env.eval(n.Args[1]), env.eval(n.Args[2])
+		return SVal{V: scalar(App("seq_sub", SSeq, a.V.T, b.V.T, c.V.T)), G: "Seq"}
+	case "str_hasprefix":
+		a, b := env.eval(n.Args[0]), env.eval(n.Args[1])
+		return gBool(App("str_hasprefix", SBool, a.V.T, b.V.T))
 	case "cat":
 		a, b := env.eval(n.Args[0]), env.eval(n.Args[1])
 		return SVal{V: scalar(seqCat(a.V.T, b.V.T)), G: "Seq"}
